@@ -152,6 +152,12 @@ def run(c):
                         hs.append(("Origin", origin))
                     if shape == "preflight":
                         hs += [("Access-Control-Request-Method", "DELETE"), ("Access-Control-Request-Headers", "X-Other, content-type")]
+                    # field names are case-insensitive: a third of the requests spell them in lower / upper / mixed case
+                    cs_ = rng.below(6)
+                    if cs_ == 0:
+                        hs = [(k.lower(), v) for k, v in hs]
+                    elif cs_ == 1:
+                        hs = [(k.upper(), v) for k, v in hs]
                     fields = [method, f, "HTTP/1.1", str(len(hs))]
                     for k, v in hs:
                         fields += [k, v]
